@@ -70,11 +70,15 @@ def main():
             rb = list(closure_var(ref, "series_boundaries"))
             if len(rb) < 6:
                 ref(rb[-1] * 3); rb = list(closure_var(ref, "series_boundaries"))
+            spread = [1]
             def realx(p):
-                """model position p (interior of segment k = p // L, or below x0) -> real abscissa"""
+                """model position p (interior of segment k = p // L, or below x0) -> real abscissa.
+                spread = 1: model segment k is real segment k (projection comparable with the spec);
+                spread = 4: model segment k is real segment 4k+1, so a wrongly chosen segment is far away"""
                 if p < 0:
                     return mp.mpf(-1) / 3
                 k, off = divmod(p, L)
+                k = k if spread[0] == 1 else min(spread[0] * k + 1, len(rb) - 2)
                 return rb[k] + (rb[k + 1] - rb[k]) * mp.mpf(off) / L * mp.mpf(15) / 16 + (rb[k + 1] - rb[k]) / 64
             fresh_cache = {}
             def fresh_value(p):
@@ -83,7 +87,10 @@ def main():
                     g = make(mpmath, name)
                     fresh_cache[p] = raw(g(realx(p)))
                 return fresh_cache[p]
-            for h in hs[: chk.pick(80, 3058)]:
+            for hi_, h in enumerate(hs[: chk.pick(80, 3058)] * 2):
+                spread[0] = 1 if hi_ < len(hs[: chk.pick(80, 3058)]) else 4
+                if spread[0] == 4 and hi_ == len(hs[: chk.pick(80, 3058)]):
+                    fresh_cache.clear()
                 mp.prec = 53
                 f = make(mpmath, name)
                 for step, a in enumerate(h["h"]):
@@ -115,11 +122,11 @@ def main():
                             pass
                         inj.arm = None
                     nseg = len(closure_var(f, "series_boundaries")) - 1
-                    if nseg != a["nseg"]:
+                    if spread[0] == 1 and nseg != a["nseg"]:
                         chk.violation("segments/projection", "%d segments after %s, spec says %d" % (nseg, json.dumps(h["h"][:step + 1]), a["nseg"]),
                                       {"sys": name, "hist": h, "step": step})
                 ntr += 1
-                chk.distinct(name + json.dumps(h), True)
+                chk.distinct(name + str(spread[0]) + json.dumps(h), True)
     finally:
         inj.close()
         mp.prec = 53
